@@ -1,5 +1,6 @@
 """Entry point of the ledger checks C01..C10 (see ledger.py)."""
 import json
+import os
 import random
 import sys
 
@@ -140,7 +141,7 @@ def run(prop, tier):
     order = list(range(len(traces)))
     rnd.shuffle(order)
     for i in order:
-        if len(controls) >= (40 if tier == "quick" else 200):
+        if len(controls) >= int(os.environ.get("VERIF_CONTROLS", 40 if tier == "quick" else 200)):
             break
         if not any(ln["a"] == "Obs" and ln["status"] != "ok" for ln in traces[i]["lines"]) or prop == "C08":
             mt = ledger.mutate(traces[i], prop, rnd)
